@@ -12,6 +12,8 @@ pub mod c07;
 pub mod c08;
 pub mod c09;
 pub mod c10;
+pub mod c11;
+pub mod c12;
 pub mod c13;
 pub mod c14;
 
@@ -78,6 +80,19 @@ const C13_ASSUMPTIONS: &[&str] = &[
     "wording of diagnostics is not compared; `diagnostic present` = stderr longer than what the program itself wrote there",
 ];
 
+const C11_ASSUMPTIONS: &[&str] = &[
+    "the debugger model: position k on the program's trajectory (k grows by one per executed command, `previous` decrements it if k > 0), breakpoint set initially {0}, `b N` toggles for N < number of commands and has no effect otherwise, `run` executes one command and then goes on until the next command carries a breakpoint or the program ends",
+    "the displayed states come from the library interpreter (its Debug rendering after k steps), run in lock-step with the reference interpreter (C01); cases where the two disagree are excluded and left to C01",
+    "transcripts are compared by projection: state dumps exactly, listed command index, program output text, listed breakpoint indices; prompts' wording, log and error messages are not compared",
+    "programs whose output contains a line break, '>' or '[' are excluded (ambiguous transcript), as are programs with unencodable output; a `run` the model cannot finish is cut from the history",
+];
+
+const C12_ASSUMPTIONS: &[&str] = &[
+    "a line's output = everything the reference interpreter writes from entering the line until control passes the line's last command, with stacks, labels and last jump source carried over; `clear` resets everything",
+    "transcripts are compared by projection (stdout / stderr text per prompt); wording of the banner and help is not compared",
+    "programs the model does not finish within its budget, with unencodable output, or whose output contains a line break, '>' or '[' are excluded and counted",
+];
+
 pub fn info(id: &str) -> Option<PropInfo> {
     Some(match id {
         "C01" => PropInfo { run: c01::run, replay: c01::replay, gates: c01::gates, rule: c01::RULE, assumptions: EXEC_ASSUMPTIONS },
@@ -86,6 +101,8 @@ pub fn info(id: &str) -> Option<PropInfo> {
         "C03" => PropInfo { run: c03::run, replay: c03::replay, gates: c03::gates, rule: c03::RULE, assumptions: C03_ASSUMPTIONS },
         "C14" => PropInfo { run: c14::run, replay: c14::replay, gates: c14::gates, rule: c14::RULE, assumptions: C14_ASSUMPTIONS },
         "C13" => PropInfo { run: c13::run, replay: c13::replay, gates: c13::gates, rule: c13::RULE, assumptions: C13_ASSUMPTIONS },
+        "C11" => PropInfo { run: c11::run, replay: c11::replay, gates: c11::gates, rule: c11::RULE, assumptions: C11_ASSUMPTIONS },
+        "C12" => PropInfo { run: c12::run, replay: c12::replay, gates: c12::gates, rule: c12::RULE, assumptions: C12_ASSUMPTIONS },
         "C04" => PropInfo { run: c04::run, replay: c04::replay, gates: c04::gates, rule: c04::RULE, assumptions: PARSE_ASSUMPTIONS },
         "C08" => PropInfo { run: c08::run, replay: c08::replay, gates: c08::gates, rule: c08::RULE, assumptions: PARSE_ASSUMPTIONS },
         "C05" => PropInfo { run: c05::run, replay: c05::replay, gates: c05::gates, rule: c05::RULE, assumptions: NUM_ASSUMPTIONS },
